@@ -219,12 +219,22 @@ def rule_recheck(ctx, px):
                "(in the stropping pass and in its dry-run verification alike)", c.lineno)
 
 
+def _loop_elem_names(lp: ast.For):
+    """the loop variable and the locals of the body that are plain copies of it"""
+    names = {lp.target.id}
+    for n in ast.walk(lp):
+        if isinstance(n, ast.Assign) and isinstance(n.value, ast.Name) and n.value.id in names:
+            names.update(t.id for t in n.targets if isinstance(t, ast.Name))
+    return names
+
+
 def rule_identity(ctx, px):
     R = "R-C09-IDENTITY"
     ctx.rule(
         R,
         "each transformation changes the token only inside a branch conditioned on a match (`_matches(...)`, the "
-        "callback of pattern.sub), so an already valid, unreserved identifier is returned unchanged",
+        "callback of pattern.sub), so an already valid, unreserved identifier is returned unchanged; the configured encoding "
+        "rules are applied one after another to the running result, and the stability check walks the same rule list",
     )
     for name in ("_strop_by_keyword", "_strop_by_pattern"):
         g0 = px.func(COMMON, f"TokenEncoder.{name}")
@@ -246,12 +256,65 @@ def rule_identity(ctx, px):
         stores = [(v_, [(_amap.get(e, e), p) for e, p in t], x_) for v_, t, x_ in stores]
         ok = bool(stores) and all(any(e.startswith("self._matches(") and p for e, p in t) for _, t, _v in stores)
         ctx.ob(R, g0.module.rel, f"{g0.short} :: token modified only under _matches(...)", ok, f"analysed {g.short}: {stores}", g0.node.lineno)
-        ok = all(any(v == f"self._stropping_prefix + {a} + self._stropping_suffix" for a in (alias | ({var} if var else set()))) for v, _, var in stores)
+        def _parts(e):
+            # the operands of a string concatenation in any spelling (+, f-string, "{}{}".format): literal pieces dropped when empty
+            if isinstance(e, ast.BinOp) and isinstance(e.op, ast.Add):
+                return _parts(e.left) + _parts(e.right)
+            if isinstance(e, ast.JoinedStr):
+                out = []
+                for v_ in e.values:
+                    if isinstance(v_, ast.Constant):
+                        out += [repr(v_.value)] if v_.value else []
+                    elif isinstance(v_, ast.FormattedValue) and v_.conversion == -1 and v_.format_spec is None:
+                        out += _parts(v_.value)
+                    else:
+                        out.append(ast.unparse(v_))
+                return out
+            if isinstance(e, ast.Call) and isinstance(e.func, ast.Attribute) and e.func.attr == "format" and isinstance(e.func.value, ast.Constant) \
+                    and isinstance(e.func.value.value, str) and not e.keywords and e.func.value.value == "{}" * len(e.args):
+                return [x for a in e.args for x in _parts(a)]
+            if isinstance(e, ast.Constant) and e.value == "":
+                return []
+            return [ast.unparse(e)]
+
+        def _is_wrapped(v, names):
+            try:
+                got = _parts(ast.parse(v, mode="eval").body)
+            except SyntaxError:
+                return False
+            return any(got == ["self._stropping_prefix", a, "self._stropping_suffix"] for a in names)
+        ok = all(_is_wrapped(v, alias | ({var} if var else set())) for v, _, var in stores)
         ctx.ob(R, g0.module.rel, f"{g0.short} :: modification is prefix + token + suffix", ok, f"{[v for v, _, _x in stores]}", g0.node.lineno)
     e = px.func(COMMON, "TokenEncoder._encode")
     subs = [c for c in ast.walk(e.node) if isinstance(c, ast.Call) and isinstance(c.func, ast.Attribute) and c.func.attr == "sub"]
     ok = len(subs) == 1 and ast.unparse(subs[0].args[0]) == "self._encoding_filter"
     ctx.ob(R, e.module.rel, f"{e.short} :: characters change only inside pattern.sub(self._encoding_filter, ...)", ok, "", e.node.lineno)
+    # the configured rules are applied as configured: one after another, in list order, each on the result of the previous one
+    # (the C++ rules rely on it: `\s+` -> `_` produces the `__` that the later `_{2,}$` rule must still see).  A single pass
+    # over an alternation of the rule sources, or a pass per rule over the *original* token, is a different function.
+    RULES_ATTR = "_token_encoding_rules_by_identifier_type"
+    seq = []
+    for lp in [n for n in ast.walk(e.node) if isinstance(n, ast.For) and isinstance(n.target, ast.Name)]:
+        src = ast.unparse(pyfront.subst_locals(e.node, lp.iter))
+        elem = _loop_elem_names(lp)
+        for st in ast.walk(lp):
+            if isinstance(st, ast.Assign) and st.value in subs and isinstance(st.value.func.value, ast.Name) and st.value.func.value.id in elem \
+                    and len(st.value.args) == 2 and len(st.targets) == 1 and ast.unparse(st.targets[0]) == ast.unparse(st.value.args[1]):
+                seq.append((src, lp))
+    ok = len(subs) == 1 and len(seq) == 1 and f"self.{RULES_ATTR}[" in seq[0][0]
+    ctx.ob(R, e.module.rel, f"{e.short} :: every configured rule is applied in turn to the running result (feed-forward)", ok,
+           "" if ok else f"the substitution is not `x = rule.sub(callback, x)` inside a loop over self.{RULES_ATTR}[<type>] "
+           f"(loops found: {[s_ for s_, _ in seq]}): a rule no longer sees what an earlier rule produced, so e.g. the C++ double-underscore rules miss the "
+           "underscores that the whitespace rule writes", e.node.lineno)
+    # the dry-run verification walks the same list
+    chk = []
+    for lp in [n for n in ast.walk(e.node) if isinstance(n, ast.For) and isinstance(n.target, ast.Name)]:
+        if any(isinstance(c, ast.Call) and isinstance(c.func, ast.Attribute) and c.func.attr in ("match", "search") and isinstance(c.func.value, ast.Name)
+               and c.func.value.id in _loop_elem_names(lp) for c in ast.walk(lp)):
+            chk.append(ast.unparse(pyfront.subst_locals(e.node, lp.iter)))
+    ok = bool(chk) and bool(seq) and all(c == seq[0][0] for c in chk)
+    ctx.ob(R, e.module.rel, f"{e.short} :: the stability check tests the rules the encoding pass applies", ok, f"pass over {[s_ for s_, _ in seq]}, check over {chk}",
+           e.node.lineno)
     # the returned variable is written only with the token itself or the result of that substitution: no normalisation
     # (strip / split / join / lower ...) outside the match callback, which could empty or alter a valid identifier
     tokp = _param(e, 1) or "token"
